@@ -11,7 +11,8 @@
 (*      unlock : value that unlocks (0x55 unless the unit is odd),             *)
 (*      nobble : DTR0 does not advance on writes, echoflip : echoes v+1,       *)
 (*      fault : [at |-> n-th READ/WRITE answer, kind |-> "silent"|"err"|       *)
-(*               "errsame" (framing error carrying the expected bits)|"none"],  *)
+(*               "errsame" (framing error carrying the expected bits)|"stuck"   *)
+(*               (the write is stored and echoed but DTR0 stays)|"none"],       *)
 (*      nans : answers to READ/WRITE given so far]                             *)
 EXTENDS CmdCodec, MemMap
 
@@ -43,6 +44,7 @@ Inc(x) == IF x < 255 THEN x + 1 ELSE x
 Faulted(u, ans) ==
     IF u.fault.kind # "none" /\ u.nans + 1 = u.fault.at
     THEN (IF u.fault.kind = "silent" THEN Silent
+          ELSE IF u.fault.kind = "stuck" THEN ans          \* answers normally, but DTR0 does not advance (see Step)
           ELSE IF u.fault.kind = "errsame" /\ ans[1] = "val" THEN <<"err", ans[2]>>   \* garbled, yet the same data bits
           ELSE <<"err", 255>>)
     ELSE ans
@@ -81,7 +83,8 @@ Step(u, len, f) ==
                     snap2 == IF ok /\ l = 2 /\ v = 170 /\ Props(u.bank).latch THEN mem2 ELSE u.snap
                     echo == IF u.echoflip THEN (v + 1) % 256 ELSE v
                     ans == IF nm = "WriteMemoryLocation" /\ ok THEN <<"val", echo>> ELSE Silent
-                IN [u |-> [u EXCEPT !.mem = mem2, !.snap = snap2, !.dtr0 = IF u.nobble THEN l ELSE Inc(l),
+                IN [u |-> [u EXCEPT !.mem = mem2, !.snap = snap2, !.dtr0 = IF u.nobble \/ (u.fault.kind = "stuck" /\ nm = "WriteMemoryLocation"
+                                                                            /\ u.nans + 1 = u.fault.at) THEN l ELSE Inc(l),
                                     !.nans = IF nm = "WriteMemoryLocation" THEN @ + 1 ELSE @],
                     resp |-> IF nm = "WriteMemoryLocation" THEN Faulted(u, ans) ELSE Silent]
       [] OTHER -> [u |-> [u EXCEPT !.wes = FALSE], resp |-> Silent]
